@@ -333,6 +333,61 @@ func c14ContextHoldersAs(c *Ctx, rule string) {
 				c.Bad(rule, "context stored in "+shortFn(f), s.Pos(), "a session context is stored into a struct field beside the context cache")
 			}
 		})
+		// a context handed to another container: a pool, a channel, a map
+		eachInstr(f, func(in ssa.Instruction) {
+			switch x := in.(type) {
+			case *ssa.Call:
+				if calleeName(x) == "(*sync.Pool).Put" && typeMentions(strip(arg(x, 0)).Type(), ctxT, 0) {
+					bad = true
+					c.Bad(rule, "context pooled in "+shortFn(f), x.Pos(), "a session context is put into a sync.Pool: the next session is handed a context that still holds the previous session's server state (challenge, cached keys)")
+				}
+			case *ssa.Send:
+				if typeMentions(x.X.Type(), ctxT, 0) {
+					bad = true
+					c.Bad(rule, "context sent in "+shortFn(f), x.Pos(), "a session context is sent on a channel: it lives on beside the context cache")
+				}
+			case *ssa.MapUpdate:
+				if typeMentions(x.Value.Type(), ctxT, 0) {
+					bad = true
+					c.Bad(rule, "context mapped in "+shortFn(f), x.Pos(), "a session context is stored in a map beside the context cache")
+				}
+			}
+		})
+	}
+	// the context a new session gets is a new one: what getContext puts into the cache is allocated
+	// there (not taken from a pool or another session)
+	if gc := c.FnOpt("cmd/auth/ntlm", "NTLMAuth.getContext"); gc != nil {
+		nSet := 0
+		for _, sf := range scopeFuncs(gc, 1) {
+			for _, ci := range callsIn(sf) {
+				if !strings.HasSuffix(calleeName(ci), "go-cache.Cache).Set") && !strings.HasSuffix(calleeName(ci), "go-cache.cache).Set") {
+					continue
+				}
+				nSet++
+				fresh := true
+				os := c.originsDeep(arg(ci, 1), 0)
+				for _, o := range os {
+					if al, isAl := o.Value.(*ssa.Alloc); !(isAl && al.Heap) {
+						if o.Kind == "const" {
+							continue
+						}
+						fresh = false
+					}
+				}
+				if len(os) == 0 {
+					fresh = false
+				}
+				if !fresh {
+					bad = true
+					c.Bad(rule, "getContext new context", ci.Pos(), "the context cached for a new session is not freshly allocated (recycled from a pool or taken from elsewhere): it can carry the server state of a previous session, whose challenge an authenticate message without negotiate is then checked against")
+				} else {
+					c.OK(rule, "getContext new context", ci.Pos(), "the context cached for a new session is allocated in getContext")
+				}
+			}
+		}
+		if nSet == 0 {
+			c.Undecided(rule, "getContext new context", gc.Pos(), "no contextCache.Set found in getContext")
+		}
 	}
 	if !bad {
 		c.OK(rule, "context holders", authT.Obj().Pos(), "no field of NTLMAuth, package variable or field store holds an ntlmContext: contexts live in the context cache only")
